@@ -6,7 +6,7 @@ fork on symbolic branches by *re-execution* along a recorded decision trace
 (DFS), exhaustive enumeration of symbolic sizes with caps, real exception
 unwinding, optional merged ("summarised") calls for pure helper functions.
 """
-import sys, os, re, struct, time, bisect, json, collections
+import os, sys, os, re, struct, time, bisect, json, collections
 import z3
 import irparse
 from irparse import V, Ty
@@ -143,16 +143,19 @@ class Engine:
         s.stats = collections.Counter()
         s.t_solver = 0.0
         s.snapshot = None
+        s.redirect = {}; s.ufs = {}; s.sym_store_max = 1024
+        s.unsat_cache = set(); s.check_seq = 0; s.trace = []; s.pos = 0; s.merge_depth = 0
         models.install(s)
 
     # ------------------------------------------------------------------ per-path state
     def reset_path(s):
         s.frames = []
-        s.solver = z3.SolverFor('QF_BV'); s.solver.set('timeout', s.timeout_ms)
+        s.solver = z3.SolverFor('QF_UFBV' if s.ufs or s.redirect else 'QF_BV'); s.solver.set('timeout', s.timeout_ms)
         s.pc = []
         s.syms = []
         s.nsym = 0
         s.pos = 0
+        s.check_seq = 0
         s.steps = 0
         s.exc = None; s.caught = []
         s.observed = []
@@ -182,13 +185,93 @@ class Engine:
         s.pc.append(c); s.solver.add(c)
 
     def check(s, *assump):
+        # re-execution of a decision prefix repeats exactly the same obligation queries: remember the ones that were unsat.
+        # key = (decisions taken so far, number of queries since the last decision); execution is deterministic given the decisions.
+        key = None
+        if s.merge_depth == 0 and s.unsat_cache is not None:
+            key = (tuple(d.idx for d in s.trace[:s.pos]), s.check_seq)
+            s.check_seq += 1
+            if key in s.unsat_cache:
+                s.stats['queries_cached'] += 1
+                if os.environ.get('VERIF_CACHE_VERIFY'):
+                    if s.check_uncached(*assump):
+                        sys.stderr.write('CACHE-MISMATCH key=%s stack=%s assump=%s\n' % (key, s.stack_names()[-4:], [str(a)[:300] for a in assump]))
+                        return True
+                return False
+        r = s.check_uncached(*assump)
+        if key is not None and not r: s.unsat_cache.add(key)
+        return r
+
+    def check_uncached(s, *assump):
         t = time.time()
+        first = min(s.timeout_ms, 200 if s.stats['z3_unknown'] >= 2 else 5000)
+        s.solver.set('timeout', first)
         r = s.solver.check(*assump)
-        s.t_solver += time.time() - t
         s.stats['queries'] += 1
         if r == z3.unknown:
-            raise EngineError('solver returned unknown: ' + s.solver.reason_unknown())
+            s.stats['z3_unknown'] += 1
+            r = s.check_cvc5_int(assump)
+            if r == z3.unknown and s.timeout_ms > first:
+                s.solver.set('timeout', s.timeout_ms)
+                r = s.solver.check(*assump)
+        s.t_solver += time.time() - t
+        if r == z3.unknown:
+            dbg = os.environ.get('VERIF_DUMP_UNKNOWN')
+            if dbg:
+                try:
+                    with open(dbg, 'w') as f:
+                        f.write(s.solver.to_smt2()); f.write('\n; assumptions: %s\n; stack: %s\n' % ([str(a)[:2000] for a in assump], s.stack_names()))
+                except Exception: pass
+            raise EngineError('solver returned unknown: %s (in %s)' % (s.solver.reason_unknown(), '>'.join(s.stack_names()[-3:])))
         return r == z3.sat
+
+    def check_cvc5_int(s, assump):
+        """second back end for queries on which z3's bit-blaster stalls (multiplication/division by constants):
+        cvc5 with the integer encoding of bit-vectors (--solve-bv-as-int=sum keeps mod-2^k semantics). unsat is taken as is;
+        sat is re-established in z3 by pinning every symbol to cvc5's model value, so the model the engine reads is z3's own."""
+        import subprocess, tempfile
+        s2 = z3.Solver()
+        s2.add(s.solver.assertions())
+        for a in assump: s2.add(a)
+        txt = '(set-option :produce-models true)\n(set-logic %s)\n' % ('QF_UFBV' if s.ufs else 'QF_BV') + s2.to_smt2().replace('(check-sat)', '') + '\n(check-sat)\n(get-model)\n'
+        d = os.environ.get('VERIF_WORK') or tempfile.gettempdir()
+        fn = os.path.join(d, 'q_%d.smt2' % os.getpid())
+        try:
+            with open(fn, 'w') as f: f.write(txt)
+            try:
+                r = subprocess.run(['cvc5', '--solve-bv-as-int=sum', '--tlimit=%d' % min(s.timeout_ms, 60000), fn], capture_output=True, text=True, timeout=min(s.timeout_ms, 60000) / 1000 + 10)
+            except subprocess.TimeoutExpired:
+                return z3.unknown
+        finally:
+            try: os.unlink(fn)
+            except Exception: pass
+        out = r.stdout
+        head = out.strip().split('\n', 1)[0].strip()
+        rest = out.strip().split('\n', 1)[1] if '\n' in out.strip() else ''
+        s.stats['cvc5_queries'] += 1
+        if head == 'unsat' and '(error' not in r.stderr:
+            # the only (error ...) tolerated is the reply to (get-model) after unsat
+            errs = [l for l in rest.splitlines() if l.startswith('(error')]
+            if all('Cannot get model' in l for l in errs):
+                s.stats['cvc5_unsat'] += 1
+                return z3.unsat
+            return z3.unknown
+        if '(error' in out or '(error' in r.stderr:
+            if os.environ.get('VERIF_DEBUG'): sys.stderr.write('cvc5: ' + out[:500] + r.stderr[:500] + '\n')
+            return z3.unknown
+        if head != 'sat': return z3.unknown
+        vals = {}
+        for mm in re.finditer(r'\(define-fun\s+(\|[^|]*\||\S+)\s+\(\)\s+\(_ BitVec (\d+)\)\s+(#x[0-9a-fA-F]+|#b[01]+)\)', out):
+            nm = mm.group(1).strip('|'); lit = mm.group(3)
+            vals[nm] = int(lit[2:], 16 if lit[1] == 'x' else 2)
+        pins = [c == vals[nm] for nm, w, c in s.syms if nm in vals]
+        s.solver.set('timeout', 20000)
+        r2 = s.solver.check(*(list(assump) + pins))
+        if r2 == z3.sat:
+            s.stats['cvc5_sat'] += 1
+            s._pinned = pins
+            return z3.sat
+        return z3.unknown
 
     def decide(s, mk_alts, why=''):
         if s.pos < len(s.trace): d = s.trace[s.pos]
@@ -196,6 +279,7 @@ class Engine:
             d = Decision(mk_alts(), why); s.trace.append(d)
             if not d.alts: raise PathEnd('infeasible')
         s.pos += 1
+        s.check_seq = 0
         return d.alts[d.idx]
 
     def branch(s, cond):
@@ -260,7 +344,11 @@ class Engine:
     # ------------------------------------------------------------------ memory
     def alloc(s, size, kind, name=''):
         if not isinstance(size, int): raise EngineError('symbolic allocation size reached alloc()')
-        if size > (1 << 26): raise PathEnd('error', 'huge allocation %d' % size)
+        if size > (1 << 26):
+            # an allocation above 64 MiB inside a bounded harness is input-driven (e.g. an unchecked or wrapped length field)
+            if s.merge_depth: raise MergeAbort('huge allocation in merged call')
+            s.violation('memory', 'allocation of %d bytes requested (length taken from unchecked input?)' % size)
+            raise PathEnd('error', 'huge allocation %d' % size)
         b = s.next_addr
         o = Obj(b, size, kind, name)
         s.dbases.append(b); s.dobjs.append(o)
@@ -333,11 +421,27 @@ class Engine:
                     if o is not None and ch.as_long() == o.base + o.size and o.size > 0: pass
                     break
         if o is None:
-            if not s.check(): raise PathEnd('infeasible')
-            a = s.solver.model().eval(addr, model_completion=True).as_long()
-            o = s.find(a)
-            if o is None:
-                s.mem_error('symbolic pointer can address no object', a, n)
+            # pointer chosen among several objects (select/phi of pointers): enumerate the feasible target objects and fork
+            def mk():
+                objs = []
+                s.solver.push()
+                try:
+                    while s.check():
+                        a = s.solver.model().eval(addr, model_completion=True).as_long()
+                        oo = s.find(a)
+                        if oo is None:
+                            objs.append(('none', a)); break
+                        objs.append(('obj', oo.base))
+                        s.solver.add(z3.Or(z3.ULT(addr, z3.BitVecVal(oo.base, 64)), z3.UGE(addr, z3.BitVecVal(oo.base + max(oo.size, 1), 64))))
+                        if len(objs) > 32: raise EngineError('symbolic pointer with more than 32 candidate objects')
+                finally:
+                    s.solver.pop()
+                return objs
+            kind, b = s.decide(mk, 'pointer target')
+            if kind == 'none':
+                s.mem_error('symbolic pointer can address no object', b, n)
+            o = s.find(b)
+            s.add_pc(z3.And(z3.UGE(addr, z3.BitVecVal(o.base, 64)), z3.ULT(addr, z3.BitVecVal(o.base + max(o.size, 1), 64))))
         off = z3.simplify(addr - z3.BitVecVal(o.base, 64))
         if o.size < n:
             s.mem_error('out-of-bounds access (object %s smaller than access)' % o.name, o.base, n)
@@ -445,6 +549,8 @@ class Engine:
         if not isinstance(addr, int):
             o, off = s.resolve_sym_addr(addr, n, True)
             if not isinstance(off, int):
+                if o.size <= s.sym_store_max and n <= 8 and not o.ro:
+                    return s.store_sym_off(o, off, n, val)
                 off = s.concretize(off, why='symbolic store offset')
         else:
             o, off = s.locate(addr, n, True)
@@ -460,6 +566,26 @@ class Engine:
             if n == 1: sym[off] = val
             else:
                 for i in range(n): sym[off + i] = (val, i)
+
+    def store_sym_off(s, o, off, n, val):
+        """store at a symbolic in-bounds offset of a small object: every byte becomes If(off == q - i, new, old)"""
+        s.stats['sym_stores'] += 1
+        if isinstance(val, int): vb = [(val >> (8 * i)) & 255 for i in range(n)]
+        elif n == 1: vb = [val]
+        else: vb = [z3.Extract(8 * i + 7, 8 * i, val) for i in range(n)]
+        sym = o.sym
+        if sym is None: sym = o.sym = {}
+        upd = {}
+        for q in range(o.size):
+            e = sym.get(q)
+            old = sym_byte(e) if e is not None else o.data[q]
+            new = old
+            for i in range(n):
+                p0 = q - i
+                if p0 < 0 or p0 > o.size - n: continue
+                new = z3.If(off == z3.BitVecVal(p0, 64), to_bv(vb[i], 8), to_bv(new, 8))
+            if new is not old: upd[q] = z3.simplify(new)
+        for q, v in upd.items(): sym[q] = v
 
     def load_bytes(s, addr, n):
         """list of n byte values (int or 8-bit terms) - concrete address"""
@@ -1308,6 +1434,7 @@ def mk_call(E, cf, m, slot, ins):
     def resolve(name):
         r = cache.get(name)
         if r is None:
+            name = E.redirect.get(name, name)
             if name in E.models: r = ('model', E.models[name])
             elif name in E.funcs:
                 mg = any(x.search(name) for x in E.merge_res) and rw is not None
@@ -1472,6 +1599,15 @@ def explore(E, entry, args, max_paths=100000, on_path=None, deadline=None):
         if n >= max_paths: raise EngineError('path cap %d exceeded' % max_paths)
         if deadline and time.time() > deadline: raise EngineError('time budget exceeded after %d paths' % n)
     return out
+
+def set_redirects(E, redirect):
+    """redirect: {pattern: target function name}. pattern is a regex that must match exactly one defined function name."""
+    for pat, target in (redirect or {}).items():
+        rx = re.compile(pat)
+        hits = [n for n in list(E.funcs) + list(E.decls) if rx.search(n)]
+        if len(hits) != 1: raise EngineError('redirect pattern %r matches %d functions: %s' % (pat, len(hits), hits[:5]))
+        if target not in E.funcs and target not in E.models: raise EngineError('redirect target %s not defined' % target)
+        E.redirect[hits[0]] = target
 
 def run_ctors(E):
     g = E.globals.get('llvm.global_ctors')
